@@ -80,8 +80,13 @@ def run(tier, seed):
     H, D = (4, 1) if tier == "quick" else (4, 2)
     its = items(tier)
     col = stepcheck.explore(its, MONS, H, D, seed=seed)
-    lit = [(sp, {"rule": "TSLACK", "max_time": 20}) for sp in F.unsorted_absence_specs()]
+    lit = [(sp, {"rule": "TSLACK", "max_time": 20}) for sp in F.unsorted_absence_specs() + F.large_amount_specs()]
+    # the error_tol keyword of simulate() set to 0 (amounts that reach exactly 0) on a slice
+    lit += [(sp, dict(o, error_tol=0.0)) for sp, o in its[::7]]
     col.merge(stepcheck.explore(lit, MONS, 0, 0, seed=seed))
+    # runs stopped at step k and continued, with a worker's / facility's own absence list edited at the stop; second runs after such edits
+    col.merge(stepcheck.explore(stepcheck.resumed_edit_items(("worker-absence-append-3",), ks=(1, 2, 3)) + stepcheck.resumed_edit_items(("worker-absence-inplace",), ks=(1,))
+                                + stepcheck.edited_items(names=("worker-absence-inplace", "worker-absence-move", "worker-absence-append-3", "facility-absence-inplace")), MONS, 0, 0, seed=seed))
     meta = {
         "level": "model_checking",
         "rule": "3-task FS/FF(/SS) and 2-task all-kind workflows over dyadic work amounts x worker layouts (mixed skills incl. 0 and missing, solo, dedicated) "
